@@ -77,7 +77,7 @@ def run(ctx):
             if not r.ok and not r.violated:
                 raise MachineryError("TLC failed on MC_Split %s: %s" % (job, r.errors[:5]))
             vs = r.vectors
-            cap = 160 if ctx.quick else 2500
+            cap = 160 if ctx.quick else 1200
             if len(vs) > cap:
                 ctx.rng.shuffle(vs)
                 vs = vs[:cap]
@@ -85,7 +85,7 @@ def run(ctx):
     ctx.exhaustive = True
     ctx.note("vectors_replayed", len(vectors))
     ctx.rule = ("TLC: every spectrum over a 2-symbol alphabet on 4x3 / 4x4 grids x 4 wind patterns (incl. equality) / 6 box sets / 24 band "
-                "cutoffs / 4 PTM5 cutoffs; a seeded sample (thorough: up to 2500 per mode and grid) replayed into ptm4, bbox, split, ptm5, "
+                "cutoffs / 4 PTM5 cutoffs; a seeded sample (thorough: up to 1200 per mode and grid) replayed into ptm4, bbox, split, ptm5, "
                 "stats(limits). distinct_nontrivial = distinct non-constant (mode, grid, spectrum, selection).")
     for v in vectors:
         F, D, E, mode, sel = v["F"], v["D"], v["E"], v["mode"], v["sel"]
